@@ -3,7 +3,7 @@
 (* Trace validation of the default engine's dispatch under every feature   *)
 (* mask (hook H3).  Events:                                                *)
 (*   mask       starts a run: what the (masked) CPU reports                *)
-(*   construct  DefaultEngine::new(); counters: nothing may have run       *)
+(*   construct  DefaultEngine::new(); whatever ran is reported and the best  *)
 (*   call       one operation (a primitive, eval_poly, or a whole encode / *)
 (*              decode / one-shot round): which #[target_feature] entry    *)
 (*              points ran how often, and a digest of the result           *)
@@ -30,7 +30,8 @@ Step(e) ==
          /\ reported' = SeqSet(e.reported) /\ engine' = "none" /\ ran' = {} /\ UNCHANGED memo
          /\ SeqSet(e.reported) \subseteq Isas
     [] e.ev = "construct" ->
-         /\ Construct /\ RanOf(e.isas) = {} /\ UNCHANGED memo
+         \* (a constructor may already run code - a self-test, a warm-up: then the same rule as for a call applies)
+         /\ Construct /\ (\A x \in RanOf(e.isas) : x[2] = Best(reported) /\ x[2] \in reported) /\ UNCHANGED memo
     [] e.ev = "call" ->
          \* the operation decomposes into primitives of the constructed engine and eval_poly calls:
          \* whatever ran must be the best reported instruction set, for every entry point
